@@ -14,7 +14,7 @@ RULE = ('signal names from a generator (identifiers, long names, unicode, spaces
         'registry holds for that name; hand-built JSON naming a never-seen signal must register it. distinct_nontrivial = distinct '
         '(name class, payload shape signature) pairs')
 CASES = {'quick': 60000, 'thorough': 5000000}
-BUDGET = {'quick': 30, 'thorough': 900}
+BUDGET = {'quick': 30, 'thorough': 300}
 REQUIRE = {'round_trips': 20000, 'new_names_via_loads': 500, 'nested_payloads': 5000}
 ASSUME = ['payloads are JSON-representable: None, bool, finite numbers, str, list, dict with str keys']
 FRESH = [0]
